@@ -280,7 +280,7 @@ def fixed_len_positive(ctx):
     return _emit(g)
 
 
-@rule("QUANT-RELUCTANT", ["C07", "C20", "C02", "C17"], floor=6)
+@rule("QUANT-RELUCTANT", ["C07", "C20", "C02", "C17", "C01"], floor=6)
 def quant_reluctant(ctx):
     """After a quantifier, a following '?' is the reluctant marker: it is looked for on every path that consumed a
     quantifier, consumed when present, rejected under XSD, and selects the reluctant operator (greedy otherwise)."""
